@@ -78,3 +78,14 @@ Example guarded_example :
   snd (irun ack_guarded ingress0 [ISeal; IAck [x01]; ISeal; ISeal; IAck [x01]; IAck [x02]; ISeal])
   = [([x01], 0); ([x01], 1); ([x01], 2)].
 Proof. reflexivity. Qed.
+
+(** a closed wrapper never passes anything through, whatever it was before *)
+Lemma closed_wrapper_refuses : forall w, wrap_use (wrap_close w) = WErr.
+Proof. reflexivity. Qed.
+
+Lemma swapped_wrapper_passes_after_close : forall w, wrap_use_swapped (wrap_close w) = WPassThrough.
+Proof. reflexivity. Qed.
+
+(** an open wrapper with a key always goes through the SessionKey (C01 applies) *)
+Lemma keyed_wrapper_uses_session_key : forall w, w_closed w = false -> w_has_key w = true -> wrap_use w = WSessionKey.
+Proof. intros [c k] Hc Hk. cbn in *. subst. reflexivity. Qed.
